@@ -157,6 +157,14 @@ def gen_merge_cases(rng, n):
         tpools = [None] if mode < 0.25 else ([None, rng.choice(TPOOLS[3:])] if mode < 0.6 else TPOOLS)
         k = rng.choice([1, 2, 2, 3, 4, 5, 7])
         objs = [build(gen_spec(rng, ids, bool_only, tpools)) for _ in range(k)]
+        if k >= 2 and rng.random() < 0.25:      # two records share one votes dict, or one contest dict (as from_vote callers may)
+            a, b = rng.sample(objs, 2)
+            if a.votes and rng.random() < 0.5:
+                kk = rng.choice(list(a.votes))
+                b.votes = dict(b.votes)
+                b.votes[kk] = a.votes[kk]
+            else:
+                b.votes = a.votes
         case, out = call_merge(objs)
         cases.append(case)
         if rng.random() < 0.5:
@@ -398,7 +406,7 @@ def run(ctx, res):
     res.rule = ("merge_cvrs: every (phantom, pool, tally_pool in None/0/''/'p1'/'p2') combination for two records of one id and "
                 "all tally-pool triples for three; generated lists of 1..7 real CVR objects over 1..3 ids (str/int/'' ids), votes over "
                 "4 contests x 4 candidates incl. empty votes / empty contests / later record omitting candidates, bool flags (80%) or "
-                "None/0/1/''/'x', tally pools incl. None, 0, '', '0', conflicting values; half of the lists are followed by a call on "
+                "None/0/1/''/'x', tally pools incl. None, 0, '', '0', conflicting values; a quarter with two records sharing a votes / contest dict object; half of the lists are followed by a call on "
                 "the merged output plus new records and a call on the original objects again. RAIRE: 1..3 contests, 0..8 ballot rows, "
                 "repeated ballot ids, a contest repeated for one id, rows with no candidates, 25% malformed (short / empty row, repeated "
                 "candidate, declared header count smaller / larger than the contest lines); one third through a csv file. "
